@@ -302,6 +302,11 @@ func runC11(r *rt.Run, tier string) {
 		}
 	case 3:
 		keyring = &openpgp.EntityList{}
+		if t.Bool(1, 2, "c11.nilslice") {
+			var kr openpgp.EntityList // an empty keyring spelled as a nil slice
+			keyring = &kr
+			r.Probe("empty-keyring-as-nil-slice")
+		}
 	case 4:
 		keyring = nil
 		r.Probe("nil-keyring")
@@ -381,6 +386,22 @@ func runC11(r *rt.Run, tier string) {
 	}
 	if success && res.signer != nil {
 		r.Probe("verification-succeeded")
+		// multi-step: the very same bytes again, now with keyrings that do not
+		// hold the signer - an earlier success must not colour the answer
+		var nilSlice openpgp.EntityList
+		for _, alt := range []struct {
+			name string
+			kr   *openpgp.EntityList
+		}{{"unrelated", &openpgp.EntityList{pgpKeys[3]}}, {"empty", &openpgp.EntityList{}}, {"empty-nil-slice", &nilSlice}} {
+			r2 := c11Read(r, api, data, alt.kr)
+			if taskTrouble(r, "C11", key+"/reread", r2.task) {
+				return
+			}
+			if (r2.built && r2.err == nil && len(r2.paras) > 0) || r2.signer != nil {
+				r.Violate("C11/accepted-invalid-signature", api+"/reread-with-"+alt.name+"-keyring", "the same bytes were read successfully with the signer's keyring and then AGAIN with a keyring that is %s: err=%v paragraphs=%d signer reported=%v", alt.name, r2.err, len(r2.paras), r2.signer != nil)
+			}
+		}
+		r.Probe("reread-with-other-keyrings")
 	}
 
 	// 4. unsigned input never has a signer (the plain text of the same document)
@@ -405,5 +426,5 @@ func init() {
 		},
 		Assumptions: []string{"x/crypto/openpgp both signs and verifies: a bug common to both directions is invisible", "must-fail is only demanded where the canonical signed text or the decoded signature provably changed (non-blank text byte to another non-blank byte; base64 character to another base64 character; truncation before the checksum line; replaced signature; keyring without signer); all other faults are checked for soundness only", "fixture keys; signing with a fixed time is byte-deterministic"},
 	})
-	propProbes["C11"] = []string{"verification-succeeded", "dash-escaped-line", "substitution-in-signed-text", "substitution-in-signature-armor", "truncation-inside-armor", "nil-keyring", "unsigned-input"}
+	propProbes["C11"] = []string{"reread-with-other-keyrings", "empty-keyring-as-nil-slice", "verification-succeeded", "dash-escaped-line", "substitution-in-signed-text", "substitution-in-signature-armor", "truncation-inside-armor", "nil-keyring", "unsigned-input"}
 }
